@@ -409,7 +409,10 @@ impl Pager {
         Ok(id)
     }
 
+    #[cfg_attr(nervusdb_verif, track_caller)]
     pub fn allocate_page(&mut self) -> Result<PageId> {
+        #[cfg(nervusdb_verif)]
+        let vt_caller = std::panic::Location::caller().file();
         let max_pages = BITMAP_BITS;
         let candidate = self
             .bitmap
@@ -425,10 +428,15 @@ impl Pager {
         }
 
         self.ensure_allocated(PageId::new(candidate))?;
+        #[cfg(nervusdb_verif)]
+        crate::verif_hooks::page_by("alloc", candidate, vt_caller);
         Ok(PageId::new(candidate))
     }
 
+    #[cfg_attr(nervusdb_verif, track_caller)]
     pub fn free_page(&mut self, page_id: PageId) -> Result<()> {
+        #[cfg(nervusdb_verif)]
+        let vt_caller = std::panic::Location::caller().file();
         self.validate_data_page_id(page_id)?;
         if !self.bitmap.is_allocated(page_id) {
             return Err(Error::PageNotAllocated(page_id.as_u64()));
@@ -436,6 +444,8 @@ impl Pager {
 
         self.bitmap.set_allocated(page_id, false);
         self.flush_meta_and_bitmap()?;
+        #[cfg(nervusdb_verif)]
+        crate::verif_hooks::page_by("free", page_id.as_u64(), vt_caller);
         Ok(())
     }
 
@@ -450,13 +460,18 @@ impl Pager {
         Ok(page)
     }
 
+    #[cfg_attr(nervusdb_verif, track_caller)]
     pub fn write_page(&mut self, page_id: PageId, page: &[u8; PAGE_SIZE]) -> Result<()> {
+        #[cfg(nervusdb_verif)]
+        let vt_caller = std::panic::Location::caller().file();
         self.validate_data_page_id(page_id)?;
         if !self.bitmap.is_allocated(page_id) {
             return Err(Error::PageNotAllocated(page_id.as_u64()));
         }
 
         write_page_raw(&self.file, page_id, page)?;
+        #[cfg(nervusdb_verif)]
+        crate::verif_hooks::page_by("write", page_id.as_u64(), vt_caller);
         Ok(())
     }
 
@@ -469,7 +484,14 @@ impl Pager {
         Ok(())
     }
 
+    #[cfg_attr(nervusdb_verif, track_caller)]
     pub(crate) fn ensure_allocated(&mut self, page_id: PageId) -> Result<()> {
+        #[cfg(nervusdb_verif)]
+        crate::verif_hooks::page_by(
+            if self.bitmap.is_allocated(page_id) { "ensure-present" } else { "ensure-new" },
+            page_id.as_u64(),
+            std::panic::Location::caller().file(),
+        );
         self.validate_data_page_id(page_id)?;
 
         if page_id.as_u64() >= self.meta.next_page_id {
@@ -528,8 +550,6 @@ fn write_page_raw(file: &File, page_id: PageId, buf: &[u8; PAGE_SIZE]) -> Result
     write_all_at(file, offset, buf).map_err(Error::Io)?;
     #[cfg(nervusdb_verif)]
     crate::verif_hooks::io_after("write", "pager.write_page", Some(file), None);
-    #[cfg(nervusdb_verif)]
-    crate::verif_hooks::page("write", page_id.as_u64());
     Ok(())
 }
 
